@@ -29,6 +29,10 @@ def run(ctx):
                     % (r.invariant or r.error or "no violation"))
     ctx.cov["design_teeth"] = "index iteration that stops at an entry above the head violates LookupAgrees (%d states)" % r.distinct
 
+    # lookups are a function of the stored chain only (action property): no step that stores nothing changes an answer
+    ctx.tlc_must_hold(cc.SUB, "MC_ChainIndex", cfg="MC_ChainIndex_lookupstable%s.cfg" % ("_quick" if q else ""), workers=2,
+                      timeout=900 if q else 3000, label="LookupStable: a lookup never changes a later lookup's answer")
+
     # 2. binding demonstrations: lookups (repository level) and verdicts (consensus level)
     runs, stats, how = cc.record(ctx, "chainindex", ["-mode", "treeclean", "-blocks", "12"], "demo-repo", 1, seed_offset=977)
     if cc.validate_runs(ctx, runs, stats, "demo-repo", how) != [0]:
@@ -93,8 +97,9 @@ def run(ctx):
                                    "dupChecksIndexedPath"], prefix="cons_")
     cc.sum_stats(ctx, repo_stats, ["lookups", "lookupsRecentPath", "lookupsIndexedPath", "txsFoundByBothPaths", "reincluded"],
                  prefix="repo_")
-    cc.sum_stats(ctx, cons_stats, ["lookups", "lookupsIndexedPath", "poolEvaluations", "windowsBeyond32Bits", "restarts"], prefix="cons_")
-    cc.sum_stats(ctx, repo_stats, ["reopens", "plantedIndexKeys"], prefix="repo_")
+    cc.sum_stats(ctx, cons_stats, ["lookups", "lookupsIndexedPath", "poolEvaluations", "windowsBeyond32Bits", "restarts",
+                                   "lookedUpBeforeLateInclusion"], prefix="cons_")
+    cc.sum_stats(ctx, repo_stats, ["reopens", "plantedIndexKeys", "lookedUpBeforeLateInclusion"], prefix="repo_")
     adopt_classes = {}
     for st in cons_stats:
         for k, v in st.get("adoptClasses", {}).items():
@@ -102,7 +107,7 @@ def run(ctx):
     ctx.cov["adopt_refusal_classes"] = adopt_classes
     cc.stalled(ctx)
     if cons_stats and not ctx.violations:
-        for k in ("cons_windowsBeyond32Bits", "cons_restarts", "cons_poolEvaluations"):
+        for k in ("cons_windowsBeyond32Bits", "cons_restarts", "cons_poolEvaluations", "cons_lookedUpBeforeLateInclusion"):
             if ctx.cov[k] == 0:
                 raise Infra("the consensus-level runs never produced %s" % k)
         for k in ("state-dependent", "dep-on-state-dependent"):
@@ -111,6 +116,8 @@ def run(ctx):
         for k in ("bad", "later", "known", "never"):
             if adopt_classes.get(k, 0) == 0:
                 raise Infra("the packer never refused a tx with class %s" % k)
+    if repo_stats and not ctx.violations and ctx.cov["repo_lookedUpBeforeLateInclusion"] == 0:
+        raise Infra("no tx was looked up through the index path before its (late) inclusion at repository level")
     if repo_stats and not ctx.violations and (ctx.cov["repo_reopens"] == 0 or ctx.cov["repo_plantedIndexKeys"] == 0):
         raise Infra("the repository-level runs did not re-open the store / plant the foreign index keys")
     ctx.cov["exhaustive"] = False
